@@ -43,25 +43,34 @@ func refCompile(text string, extra ...gojq.CompilerOption) (*gojq.Code, error) {
 func refRun(code *gojq.Code, input any, vars ...any) Obs {
 	ctx, cancel := context.WithTimeout(context.Background(), 20*time.Second)
 	defer cancel()
-	it := code.RunWithContext(ctx, clone(input), vars...)
-	return drain(it)
+	var o Obs
+	pv, _ := core.Protect(func() {
+		drain(code.RunWithContext(ctx, clone(input), vars...), &o)
+	})
+	if pv != nil {
+		// the reference engine itself crashed (a defect of the gojq fork, which fq
+		// shares): recorded as a failure at this point of the stream
+		o.Err = true
+		o.Msg = "GO PANIC in reference: " + core.PanicString(pv)
+		o.Panic = true
+	}
+	return o
 }
 
-func drain(it gojq.Iter) Obs {
-	var o Obs
+func drain(it gojq.Iter, o *Obs) {
 	for {
 		v, ok := it.Next()
 		if !ok {
-			return o
+			return
 		}
 		if e, ok := v.(error); ok {
 			o.Err = true
 			o.Msg = e.Error()
-			return o
+			return
 		}
 		if len(o.Outs) >= outCap {
 			o.Trunc = true
-			return o
+			return
 		}
 		o.Outs = append(o.Outs, canon(v))
 	}
@@ -113,11 +122,13 @@ func (e *fqEngine) run(text string, input any) (o Obs, compileErr error) {
 			o, compileErr = Obs{Err: true, Msg: "compile: " + err.Error()}, err
 			return
 		}
-		o = drain(it)
+		drain(it, &o)
 	})
 	if pv != nil {
 		o.Err = true
+		o.Panic = true
 		o.Msg = "GO PANIC: " + core.PanicString(pv) + " @ " + core.PanicSite(stack)
+		e.reset() // do not trust an interpreter a panic unwound through
 	}
 	return o, compileErr
 }
